@@ -24,7 +24,7 @@ Definition qltb (a b : Q) : bool := negb (Qle_bool b a).
 Definition before (asc : bool) (a b : Q) : bool := if asc then qltb a b else qltb b a.
 Definition qcount (f : Q -> bool) (l : list Q) : Z := Z.of_nat (length (filter f l)).
 Definition rank_avg (asc : bool) (l : list Q) (x : Q) : Q :=
-  (inject_Z (qcount (fun y => before asc y x) l) + (inject_Z (qcount (Qeq_bool x) l) + 1) / 2)%Q.
+  (inject_Z (qcount (fun y => before asc y x) l) + (inject_Z (qcount (Qeq_bool x) l) + 1) * (1 # 2))%Q.
 Definition ranks (asc : bool) (l : list Q) : list Q := map (rank_avg asc l) l.
 
 Fixpoint argmin_aux (best : Q) (bi i : Z) (l : list Q) : Z :=
